@@ -102,7 +102,62 @@ def make_scenarios(ctx):
             else:
                 sc.config.pop("scalars", None)
             out.append(sc)
-    return out + corpus_scenarios()
+    return out + corpus_scenarios() + body_name_scenarios(ctx)
+
+
+# names the body of a generated method (or client.py at module level) can refer to; a variable called like one of them
+# must not break the method - whatever the position of the operation in the queries file
+BODY_VSCAL_EXTRA = '''
+
+def __getattr__(name):
+    if name.startswith("ser_"):
+        f = _ser(name)
+    elif name.startswith("parse_"):
+        f = _parse(name)
+    else:
+        raise AttributeError(name)
+    globals()[name] = f
+    return f
+'''
+BODY_SDL = """scalar DateTime
+scalar JSONBlob
+enum EnumA { RED GREEN }
+input InA { x: Int when: DateTime }
+type Query { f(a: Int, b: Boolean, d: DateTime, j: [JSONBlob], i: InA, e: EnumA, s: String): Int }
+"""
+
+
+def body_name_scenarios(ctx):
+    names = ["ser_dt", "ser_blob", "parse_dt", "gql", "UNSET", "UnsetType", "Upload", "Any", "Dict", "List", "Optional",
+             "Union", "AsyncIterator", "BaseClient", "AsyncBaseClient", "InA", "EnumA", "self", "kwargs", "query",
+             "variables", "response", "data", "execute", "get_data", "model_validate"]
+    ops = []
+    for k, n in enumerate(names):
+        # (i) the variable named n together with variables that use both serialised scalars
+        ops.append(f"query Body{k}(${n}: Boolean!, $after: DateTime!, $j: [JSONBlob]) {{ f(b: ${n}, d: $after, j: $j) }}")
+    # (ii) named like a serialize function in an operation that does not use the scalar itself
+    ops.append("query Lone1($ser_dt: Int, $ser_blob: String) { f(a: $ser_dt, s: $ser_blob) }")
+    # (iii) named like the operation's own result class / another operation's / an input and enum class, with those used
+    ops.append("query OwnClass($OwnClass: Int, $Body0: Int, $i: InA, $InA: Int, $e: EnumA, $EnumA: Boolean) "
+               "{ f(a: $OwnClass, i: $i, e: $e, b: $EnumA) g1: f(a: $Body0) g2: f(a: $InA) }")
+    # (iv) escaped twins that must stay distinct parameters
+    ops.append("query Twins($from: Int, $from_: Int, $self: Int, $self_: Int, $kwargs: Int, $kwargs_: Int, $class: Int, "
+               "$class_: Int) { f(a: $from) g1: f(a: $from_) g2: f(a: $self) g3: f(a: $self_) g4: f(a: $kwargs) "
+               "g5: f(a: $kwargs_) g6: f(a: $class) g7: f(a: $class_) }")
+    cfg_sc = {"DateTime": {"type": "Any", "serialize": "vscal.ser_dt", "parse": "vscal.parse_dt"},
+              "JSONBlob": {"type": "Any", "serialize": "vscal.ser_blob"}}
+    orders = [list(range(len(ops))), list(reversed(range(len(ops)))), [1] + [i for i in range(len(ops)) if i != 1],
+              [len(names)] + [i for i in range(len(ops)) if i != len(names)]]
+    if ctx.thorough:
+        orders += [list(range(k, len(ops))) + list(range(k)) for k in range(2, len(ops), 3)]
+    out = []
+    for oi, order in enumerate(orders):
+        for snake in (False, True):
+            out.append(scenario.Scenario(
+                seed=910000 + 2 * oi + int(snake), sdl=BODY_SDL, queries="\n\n".join(ops[i] for i in order) + "\n",
+                config={"convert_to_snake_case": snake, "async_client": bool(oi % 2), "scalars": cfg_sc},
+                features=("corpus:body-names",), files={"vscal.py": argenc.VSCAL + BODY_VSCAL_EXTRA}))
+    return out
 
 
 def corpus_scenarios():
@@ -327,7 +382,10 @@ def run(ctx):
                             pn = param_names(order, g.snake, g.res["config"].get("scalars"))
                             enc = {pmap.get(n, pn[n]): v.enc for n, v in c.vals.items() if v is not OMIT}
                             intended = {n: v.intent for n, v in c.vals.items() if v is not OMIT}
-                            c.real = g.driver.ask({"cmd": "call_args", "method": m, "args": enc, "intended": intended})
+                            req = {"cmd": "call_args", "method": m, "args": enc, "intended": intended}
+                            if "corpus:body-names" in g.sc.features:
+                                req["respond"] = "execute"      # let the method run to its end (result class, get_data)
+                            c.real = g.driver.ask(req)
             finally:
                 g.stop()
             return rows
@@ -550,6 +608,18 @@ def check_call(ctx, g, op, vds, c, names_ok, inputs_ok, f10_bad, stats, f21_ok=T
             if v is not OMIT and v.enc is None and not (n in sv and sv[n] is None):
                 problems.append(f"None for ${n} does not travel as null ({sv.get(n, '<absent>')!r})")
                 involved.add(n)
+    if was_sent and exc and "corpus:body-names" in g.sc.features:
+        from ariadne_codegen.utils import str_to_pascal_case
+
+        what = f"the request was sent but the method then raised {exc[0]}: {exc[1][:160]}"
+        pn = param_names([n for n, _t, _d in vds], g.snake, g.res["config"].get("scalars"))
+        if str_to_pascal_case(op.name.value) in pn.values() and exc[0] == "AttributeError" and "model_validate" in exc[1]:
+            # narrow class: a parameter is called like the operation's own result class and shadows it
+            run.finding("F32-variable-named-like-result-class", what, replay_of(g, op, c))
+            run.dist("outcomes", "property-fails")
+            return
+        problems.append(what)
+        involved = None
     if problems:
         run.dist("outcomes", "property-fails")
         fail("; ".join(problems[:3]), involved)
